@@ -28,6 +28,8 @@ impl DoorKeeper {
     }
 
     pub(crate) fn has(&self, key: &KeyHash) -> bool {
+        #[cfg(cached_verif)]
+        crate::cache::verif::log_oracle(crate::cache::verif::Oracle::Bloom(*key, self.bloom.check(key)));
         self.bloom.check(key)
     }
 
